@@ -32,6 +32,9 @@ fn gen_filter_comment(r: &mut Rng, stats: &mut Out) -> String {
     let lint = |r: &mut Rng| -> String {
         if r.chance(1, 12) {
             "nonexistent_lint".to_owned()
+        } else if r.chance(1, 10) {
+            // a valid filter for the lint that reports invalid filters: such reports are not subject to filters
+            "invalid_lint_filter".to_owned()
         } else {
             (*r.pick(LINTS)).to_owned()
         }
@@ -216,7 +219,7 @@ pub fn gen_program(r: &mut Rng, stats: &mut Out, filter_rate: usize) -> String {
     let mut g = Gen { r, out: String::new(), names: vec!["a", "b", "c"], filter_rate };
     // global filters before any code
     if g.r.chance(1, 3) {
-        let lint = *g.r.pick(LINTS);
+        let lint = if g.r.chance(1, 6) { "invalid_lint_filter" } else { *g.r.pick(LINTS) };
         let v = *g.r.pick(&["allow", "deny", "warn"]);
         g.out.push_str(&format!("--# selene: {v}({lint})\n"));
         stats.bump("global_filter_top");
